@@ -130,6 +130,17 @@ def render_single(c):
         return 'select %s + %s as s, %s * 2 from %s where not %s = 2' % (a, bb, a, t1, bb)
     if b == 'exists':
         return 'select %s from %s where exists (select 1 from int1.t2 where c = 1)' % (a, t1)
+    # correlated sub-queries: the inner query refers to the OUTER table through its name / alias
+    o = q if q else 't1.'
+    if b == 'exists-correlated':
+        return 'select %s from %s where exists (select 1 from int1.t2 where t2.a = %sa)' % (a, t1, o)
+    if b == 'in-correlated':
+        return 'select %s from %s where %s in (select c from int1.t2 where t2.a = %sa)' % (a, t1, bb, o)
+    if b == 'scalar-correlated':
+        return 'select %s, (select count(*) from int1.t2 where t2.a = %sa) as n from %s' % (a, o, t1)
+    if b == 'exists-correlated-shadow':
+        # the inner table has a column of the same name as the outer reference's column
+        return 'select %s from %s where exists (select 1 from int1.t3 where t3.b = %sb and t3.c = 1)' % (a, t1, o)
     if b == 'case-insensitive':
         return 'select %s from %s where %s = 1' % (a, t1.replace('int1.', 'INT1.'), bb)
     raise ValueError(b)
